@@ -68,6 +68,10 @@ pub struct Exec {
 	pub pm_checked: u64,
 	/// background-error state entered: every later commit must be refused
 	pub bg_err: bool,
+	/// compare get_num_column_value_entries with the model (multitree columns)
+	pub check_entries: bool,
+	/// accepted transactions in commit order (recorded with the prefix list)
+	pub accepted_txs: Vec<Tx>,
 }
 
 pub fn wipe_dir(dir: &Path) {
@@ -117,9 +121,36 @@ impl Exec {
 			pm: crate::pm::Pm::default(),
 			pm_checked: 0,
 			bg_err: false,
+			check_entries: true,
+			accepted_txs: vec![],
 		};
 		ex.open(true)?;
 		Ok(ex)
+	}
+
+	/// An execution context over an existing directory (no wipe, not yet opened).
+	pub fn detached(dir: &Path, cfg: &Config, universe: Arc<Vec<Vec<Vec<u8>>>>) -> Exec {
+		Exec {
+			dir: dir.to_path_buf(),
+			cfg: cfg.clone(),
+			db: None,
+			model: Model::new(cfg),
+			prefix: vec![],
+			universe,
+			it: None,
+			last_it_result: None,
+			locks: BTreeMap::new(),
+			tree_addr: Default::default(),
+			rejected: 0,
+			check_iter_rc: true,
+			record_prefix: false,
+			last_stage_result: None,
+			pm: crate::pm::Pm::default(),
+			pm_checked: 0,
+			bg_err: false,
+			check_entries: true,
+			accepted_txs: vec![],
+		}
 	}
 
 	pub fn open(&mut self, create: bool) -> Result<(), Fail> {
@@ -237,6 +268,7 @@ impl Exec {
 				self.model = m2;
 				if self.record_prefix {
 					self.prefix.push(self.model.clone());
+					self.accepted_txs.push(tx.clone());
 				}
 				self.pm.commit(tx, &self.cfg);
 				Ok(true)
